@@ -167,7 +167,7 @@ def run(tier, seed):
     wd = vlib.workdir("c13")
     try:
         q = tier == "quick"
-        res = vlib.tlc_mc("MC_Brk", "MC_Brk.cfg", wd, workers=8, constants={"MaxOps": "5" if q else "7"}, timeout=3000)
+        res = vlib.tlc_mc("MC_Brk", "MC_Brk.cfg", wd, workers=8, constants={"MaxOps": "9" if q else "16"}, timeout=3000)
         vlib.require_mc_ok(res, "MC_Brk")
         scs = [scenario(rng, k, 12 if q else 20) for k in range(150 if q else 3000)]
         n, s = validate(scs, wd, "brk", rep, 8 if q else 14)
